@@ -188,8 +188,12 @@ type LateChooser interface {
 type Burst struct {
 	c         LateChooser
 	handle    int
+	selHandle int
 	Decisions int // decisions seen so far, over all steps
+	Selects   int // selects with more than one ready case seen so far
 	Deviated  int // deviations taken so far
+	// NoSelect / NoSched switch one of the two dimensions off.
+	NoSelect, NoSched bool
 }
 
 // NewBurst returns nil unless the determinised runtime is linked in.
@@ -197,7 +201,7 @@ func NewBurst(c LateChooser) *Burst {
 	if !verifdetrt.On {
 		return nil
 	}
-	return &Burst{c: c, handle: -1}
+	return &Burst{c: c, handle: -1, selHandle: -1}
 }
 
 // Begin is called right before the stimulus of a step is applied. It returns
@@ -206,43 +210,64 @@ func (b *Burst) Begin() string {
 	if b == nil {
 		return ""
 	}
-	if b.handle >= 0 {
+	if b.handle >= 0 || b.selHandle >= 0 {
 		b.End()
 	}
-	d, hd := b.c.ChooseLate("scheduler deviation in this step")
-	b.handle = hd
-	switch {
-	case d == 0:
-		verifdetrt.SetDelay(0, false)
-		return ""
-	case d%2 == 1:
-		b.Deviated++
-		verifdetrt.SetDelay((d+1)/2, false)
-		return fmt.Sprintf(" [the goroutine due at scheduling decision %d of this step goes to the back of the run queue]", (d+1)/2)
-	default:
-		b.Deviated++
-		verifdetrt.SetDelay(d/2, true)
-		return fmt.Sprintf(" [the goroutine due at scheduling decision %d of this step only runs when nothing else can, until the step ends]", d/2)
+	desc := ""
+	verifdetrt.SetDelay(0, false)
+	verifdetrt.SetSelect(0)
+	if !b.NoSched {
+		d, hd := b.c.ChooseLate("scheduler deviation in this step")
+		b.handle = hd
+		switch {
+		case d == 0:
+		case d%2 == 1:
+			b.Deviated++
+			verifdetrt.SetDelay((d+1)/2, false)
+			desc += fmt.Sprintf(" [the goroutine due at scheduling decision %d of this step goes to the back of the run queue]", (d+1)/2)
+		default:
+			b.Deviated++
+			verifdetrt.SetDelay(d/2, true)
+			desc += fmt.Sprintf(" [the goroutine due at scheduling decision %d of this step only runs when nothing else can, until the step ends]", d/2)
+		}
 	}
+	if !b.NoSelect {
+		d, hd := b.c.ChooseLate("select deviation in this step")
+		b.selHandle = hd
+		if d > 0 {
+			b.Deviated++
+			verifdetrt.SetSelect(d)
+			desc += fmt.Sprintf(" [select number %d of this step with several ready cases does not take the ready case the fixed poll order would take, but the next ready one]", d)
+		}
+	}
+	return desc
 }
 
 // End is called at the quiescent point that ends the step (after Wait).
 func (b *Burst) End() {
-	if b == nil || b.handle < 0 {
+	if b == nil {
 		return
 	}
-	n := verifdetrt.DelayCount()
+	n, m := verifdetrt.DelayCount(), verifdetrt.SelectCount()
 	verifdetrt.SetDelay(0, false)
-	b.Decisions += n
-	h := b.handle
-	b.handle = -1
-	b.c.FixLate(h, 2*n+1)
+	verifdetrt.SetSelect(0)
+	if h := b.handle; h >= 0 {
+		b.handle = -1
+		b.Decisions += n
+		b.c.FixLate(h, 2*n+1)
+	}
+	if h := b.selHandle; h >= 0 {
+		b.selHandle = -1
+		b.Selects += m
+		b.c.FixLate(h, m+1)
+	}
 }
 
 // Off disarms without fixing a menu (end of an execution).
 func (b *Burst) Off() {
 	if b != nil {
 		verifdetrt.SetDelay(0, false)
-		b.handle = -1
+		verifdetrt.SetSelect(0)
+		b.handle, b.selHandle = -1, -1
 	}
 }
